@@ -34,7 +34,8 @@ impl RatchetResult {
 
 /// What a run looked at, for deciding which baseline entries it may call resolved.
 pub struct EvaluatedPaths {
-    /// Paths of all results of this run plus the directories whose counts were checked.
+    /// Paths of the content results of this run (the files whose lines were counted) plus
+    /// the directories whose counts were checked.
     pub paths: HashSet<String>,
     /// True when directories were scanned (not `--files` mode): a path that no longer
     /// exists was then seen to be gone.
